@@ -121,6 +121,15 @@ Fixpoint kid_leaves (ks : kids) : list (bytes * option value) :=
   | KCons k c r => (lower k, match c with Leaf v => Some v | Node _ => None end) :: kid_leaves r
   end.
 
+(* The path a read key denotes.  The EMPTY key stands for the root of the configuration: the translator emits
+   the whole-configuration reads (viper.AllSettings, AllKeys, Unmarshal, GetViper ...) as rows with an empty
+   pattern.  (viper.Get("") itself finds nothing; letting it see the root only makes the model reveal more.) *)
+Definition key_path (key : bytes) : list bytes :=
+  match key with
+  | [] => []
+  | _ => path_of key
+  end.
+
 Definition renv := list (nat * list rres).
 
 Fixpoint env_get (env : renv) (i : nat) : list rres :=
@@ -139,7 +148,7 @@ Section Sem.
   Variable leaf_kids : value -> list (bytes * option value).
 
   Definition read (cfg : tree) (k : rkind) (key : bytes) : rres :=
-    let n := cfg_get cfg key in
+    let n := lookup cfg (key_path key) in
     match k with
     | KExists => ResBool (match n with Some _ => true | None => false end)
     | KKeys => ResKeys (match n with Some (Node ks) => kid_keys ks | Some (Leaf v) => leaf_keys v | None => [] end)
@@ -246,12 +255,12 @@ Fixpoint fixed_dots (pat : list pelem) : nat :=
 
 (* no instance of the pattern is a password path *)
 Definition exact_ok (pat : list pelem) : bool :=
-  if forallb is_fix pat then negb (is_pw (path_of (lead pat)))
+  if forallb is_fix pat then negb (is_pw (key_path (lead pat)))
   else first_seg_safe pat || last_seg_safe pat.
 
 (* no instance of the pattern is a password path or a prefix of one *)
 Definition below_ok (pat : list pelem) : bool :=
-  if forallb is_fix pat then path_below_ok (path_of (lead pat))
+  if forallb is_fix pat then path_below_ok (key_path (lead pat))
   else first_seg_safe pat || (last_seg_safe pat && Nat.leb 2 (fixed_dots pat)).
 
 Definition row_ok (r : rrow) : bool :=
@@ -289,11 +298,22 @@ Definition struct_has_field (structs : list (string * list (string * string * st
 Definition is_struct_feed (structs : list (string * list (string * string * string))) (f : string) : bool :=
   existsb (fun st => String.prefix (fst st ++ ".")%string f) structs.
 
-(* - no field of a response struct is named or tagged like a secret;
-   - no field of a response literal is filled by an expression the translator could not classify;
-   - a read that feeds "T.F" feeds a field that exists. *)
+(* The field-feed obligation (a structural lint next to the read-set obligation, which carries the proof):
+   - every field of every response-struct literal reachable from a handler is filled by an expression the
+     translator can classify -- a viper read (which is then a row of the read table), a constant, a variable,
+     a nested literal, a call of a function of the package (walked) or of a library without access to the
+     configuration, the backend's reply, the application context, or the request -- never by something it
+     cannot see through (FOther: a field of the coordinator, a call into another package of the module, a
+     function value, reflection ...);
+   - a read that feeds "T.F" feeds a field that exists.
+   Field NAMES are not judged: a field called "Password" that is fed from a constant reveals nothing, and one
+   fed from the configuration is caught by the read table.  [secretish_fields] only lists such names for the
+   evidence file. *)
 Definition resp_fields_ok (structs : list (string * list (string * string * string))) (feeds : list feed)
            (tbl : list rrow) : bool :=
-  forallb (fun st => forallb (fun f => negb (secretish (fst (fst f))) && negb (secretish (snd f))) (snd st)) structs
-  && forallb (fun fd => match fd with Feed _ _ _ FOther _ _ => false | _ => true end) feeds
+  forallb (fun fd => match fd with Feed _ _ _ FOther _ _ => false | _ => true end) feeds
   && forallb (fun r => negb (is_struct_feed structs (row_feeds r)) || struct_has_field structs (row_feeds r)) tbl.
+
+Definition secretish_fields (structs : list (string * list (string * string * string))) : list string :=
+  flat_map (fun st => map (fun f => (fst st ++ "." ++ fst (fst f))%string)
+                          (filter (fun f => secretish (fst (fst f)) || secretish (snd f)) (snd st))) structs.
